@@ -84,6 +84,7 @@ func runC13(c *Ctx) {
 	c.r137()
 	c.r138()
 	c.r139()
+	c.r1310()
 }
 
 // R13.6: pooled / shared scratch objects do not escape.
@@ -1354,4 +1355,66 @@ func (c *Ctx) r139() {
 		}
 	}
 	c.R.Floor(rule, "inputs created with parse.NewInput in the format packages", n, 6)
+}
+
+// R13.10: a minifier does not write into the registry it was called through.
+func (c *Ctx) r1310() {
+	const rule = "R13.10"
+	c.R.Rule(rule, "every minifier receives the registry `m *minify.M` it was called through, the same value for all concurrent calls; its exported field URL is the base URL the user set. In the format packages (css, html, js, json, svg, xml) no assignment goes to a field of a minify.M — `m.URL = base` for the duration of one document (restored by a defer) made every other document minified at that moment, and every embedded re-entry, see a foreign base URL")
+	n := 0
+	for _, rel := range formatPkgs {
+		pk := c.P.Pkg(rel)
+		if pk == nil {
+			continue
+		}
+		info := pk.TypesInfo
+		var bad []string
+		for _, fd := range load.FuncDecls(pk) {
+			if fd.Body == nil {
+				continue
+			}
+			ast.Inspect(fd.Body, func(z ast.Node) bool {
+				var targets []ast.Expr
+				switch v := z.(type) {
+				case *ast.AssignStmt:
+					targets = v.Lhs
+				case *ast.IncDecStmt:
+					targets = []ast.Expr{v.X}
+				case *ast.UnaryExpr:
+					if v.Op == token.AND {
+						targets = []ast.Expr{v.X} // &m.URL: a pointer through which it can be written
+					}
+				}
+				for _, l := range targets {
+					for {
+						switch x := ast.Unparen(l).(type) {
+						case *ast.IndexExpr:
+							l = x.X
+							continue
+						case *ast.StarExpr:
+							l = x.X
+							continue
+						}
+						break
+					}
+					sel, ok := ast.Unparen(l).(*ast.SelectorExpr)
+					if !ok {
+						continue
+					}
+					t := info.TypeOf(sel.X)
+					if t == nil {
+						continue
+					}
+					if strings.HasSuffix(derefType(t).String(), load.Mod+".M") {
+						bad = append(bad, fmt.Sprintf("%s in %s at %s", str(l), load.FuncName(fd), c.pos(z)))
+					}
+				}
+				return true
+			})
+		}
+		n++
+		c.R.Check(len(bad) == 0, rule, rel+"/no write into the registry", "-", "no assignment to a field of minify.M",
+			"the minifier writes into the registry it shares with every concurrent call ("+strings.Join(bad, "; ")+"): other calls read the changed value while this one runs, and the write races with them")
+	}
+	c.R.Floor(rule, "format packages examined", n, 6)
 }
